@@ -129,6 +129,8 @@ pub struct Th {
     /// Inferred stack of queries this thread is executing.
     pub stack: Vec<u64>,
     pub os_tid: i32,
+    /// Description of the futex wait the thread was seen in when classified `BlockedReal`.
+    pub blocked_in: String,
     /// Number of top-level boundaries passed (query end, vfs read, task end, exit).
     pub epoch: u64,
     pub in_query: bool,
@@ -162,6 +164,7 @@ impl Th {
             block: None,
             stack: Vec::new(),
             os_tid: 0,
+            blocked_in: String::new(),
             epoch: 0,
             in_query: false,
             cancel_ok: false,
@@ -211,6 +214,15 @@ pub struct St {
     pub trace_hash: Fnv,
     pub epilogues: BTreeSet<Tid>,
     pub wake_owed: bool,
+    /// Observable activity of the main thread (hook points, transport reads and writes).
+    pub m_progress: u64,
+    m_progress_at_release: u64,
+    /// The main thread did something since it was last released from `idle`, so a wake it
+    /// sent to itself may still be pending: pump it once more.
+    pub pump_again: bool,
+    /// ordinal of spawned task -> salsa event at which to inject a panic
+    pub task_crash_plan: BTreeMap<u64, u64>,
+    pub spawned_tasks: u64,
     pub probes: Probes,
     pub point_counts: BTreeMap<&'static str, u64>,
     pub panics: Vec<(Tid, String)>,
@@ -283,7 +295,7 @@ impl St {
             }
         }
         if t.is_main && matches!(&t.point, Some(p) if p.kind == PKind::Named("idle")) {
-            return self.wake_owed;
+            return self.wake_owed || self.pump_again;
         }
         true
     }
@@ -460,6 +472,11 @@ impl Core {
                 trace_hash: Fnv::default(),
                 epilogues: BTreeSet::new(),
                 wake_owed: false,
+                m_progress: 0,
+                m_progress_at_release: u64::MAX,
+                pump_again: false,
+                task_crash_plan: BTreeMap::new(),
+                spawned_tasks: 0,
                 probes: Probes::default(),
                 point_counts: BTreeMap::new(),
                 panics: Vec::new(),
@@ -507,6 +524,11 @@ impl Core {
         }
     }
 
+    /// Transport activity of the main thread (bytes read or written).
+    pub fn note_io(&self) {
+        self.lock().m_progress += 1;
+    }
+
     /// To be called from the pool's `on_thread_stop`.
     pub fn os_thread_stopping(&self) {
         if let Some(t) = LAST_TID.with(|l| l.take()) {
@@ -519,22 +541,21 @@ impl Core {
         let mut st = self.lock();
         let deadline = Instant::now() + self.watchdog;
         let mut poll = Duration::from_micros(300);
-        // os tid -> (runtime ns at first sleepy observation, when, observations)
-        let mut sleepy: BTreeMap<Tid, (u64, Instant, u32)> = BTreeMap::new();
+        // tid -> (futex wait descriptor at first observation, when, observations)
+        let mut sleepy: BTreeMap<Tid, (String, Instant, u32)> = BTreeMap::new();
+        let own = (self as *const Core as usize, self as *const Core as usize + std::mem::size_of::<Core>());
         loop {
             // A thread we believed blocked may have been woken by the last step.
-            let blocked: Vec<(Tid, i32)> = st
+            let blocked: Vec<(Tid, i32, String)> = st
                 .threads
                 .iter()
                 .filter(|(_, t)| t.status == Status::BlockedReal)
-                .map(|(id, t)| (*id, t.os_tid))
+                .map(|(id, t)| (*id, t.os_tid, t.blocked_in.clone()))
                 .collect();
-            for (id, os) in blocked {
-                if let Some((state, _)) = os_thread_state(os) {
-                    if state != 'S' {
-                        st.threads.get_mut(&id).unwrap().status = Status::Running;
-                        st.log(None, || format!("{id} os-unblocked"));
-                    }
+            for (id, os, was) in blocked {
+                if foreign_futex_wait(os, own).as_deref() != Some(was.as_str()) {
+                    st.threads.get_mut(&id).unwrap().status = Status::Running;
+                    st.log(None, || format!("{id} os-unblocked"));
                 }
             }
             if st.settled() {
@@ -564,7 +585,9 @@ impl Core {
                 continue;
             }
             poll = (poll * 2).min(Duration::from_millis(2));
-            // Nobody reported for a while: is the running thread asleep in the kernel?
+            // Nobody reported for a while: is the running thread asleep in a futex wait that is
+            // not one of the simulator's own locks? (Waiting for a child process, the disk or
+            // the CPU is not blocking on a peer.)
             let running: Vec<(Tid, i32)> = st
                 .threads
                 .iter()
@@ -572,23 +595,25 @@ impl Core {
                 .map(|(id, t)| (*id, t.os_tid))
                 .collect();
             for (id, os) in running {
-                match os_thread_state(os) {
-                    Some(('S', rt)) => {
-                        let e = sleepy.entry(id).or_insert((rt, Instant::now(), 0));
-                        if e.0 != rt {
-                            *e = (rt, Instant::now(), 0);
+                match foreign_futex_wait(os, own) {
+                    Some(desc) => {
+                        let e = sleepy.entry(id).or_insert((desc.clone(), Instant::now(), 0));
+                        if e.0 != desc {
+                            *e = (desc, Instant::now(), 0);
                         } else {
                             e.2 += 1;
-                            if e.2 >= 4 && e.1.elapsed() >= Duration::from_millis(4) {
-                                st.threads.get_mut(&id).unwrap().status = Status::BlockedReal;
-                                st.threads.get_mut(&id).unwrap().waited_on.push(0);
+                            if e.2 >= 5 && e.1.elapsed() >= Duration::from_millis(8) {
+                                let t = st.threads.get_mut(&id).unwrap();
+                                t.status = Status::BlockedReal;
+                                t.blocked_in = desc;
+                                t.waited_on.push(0);
                                 st.probes.os_blocked += 1;
                                 st.log(None, || format!("{id} os-blocked"));
                                 sleepy.remove(&id);
                             }
                         }
                     }
-                    _ => {
+                    None => {
                         sleepy.remove(&id);
                     }
                 }
@@ -625,6 +650,11 @@ impl Core {
                 None
             }
         };
+        if st.threads[&id].is_main && matches!(&st.threads[&id].point, Some(p) if p.kind == PKind::Named("idle")) {
+            st.wake_owed = false;
+            st.pump_again = false;
+            st.m_progress_at_release = st.m_progress;
+        }
         {
             let t = st.threads.get_mut(&id).unwrap();
             debug_assert_eq!(t.status, Status::Parked);
@@ -790,6 +820,13 @@ impl Controller for Handle {
             }
         }
         *st.point_counts.entry(info.kind.label()).or_insert(0) += 1;
+        if st.threads[&who].is_main {
+            if info.kind == PKind::Named("idle") {
+                st.pump_again = st.m_progress != st.m_progress_at_release;
+            } else {
+                st.m_progress += 1;
+            }
+        }
 
         // Bookkeeping that does not depend on gating.
         let mut crash = false;
@@ -948,6 +985,9 @@ impl Controller for Handle {
         st.next_tid += 1;
         let mut th = Th::new(format!("t{id}"));
         th.needs_epilogue = true;
+        st.spawned_tasks += 1;
+        let ord = st.spawned_tasks;
+        th.crash_at = st.task_crash_plan.get(&ord).copied();
         if st.freerun {
             th.status = Status::Done;
         }
@@ -989,13 +1029,25 @@ fn simple(kind: PKind) -> PointInfo {
     }
 }
 
-/// (state letter, cumulative on-CPU nanoseconds) of an OS thread of this process.
-fn os_thread_state(tid: i32) -> Option<(char, u64)> {
+/// If the OS thread sleeps in a futex wait on an address outside `own` (the simulator's own
+/// mutex and condvar live there), a description of that wait (address, stack pointer, pc) that
+/// stays the same as long as the thread has not been woken; `None` otherwise.
+fn foreign_futex_wait(tid: i32, own: (usize, usize)) -> Option<String> {
     let stat = std::fs::read_to_string(format!("/proc/self/task/{tid}/stat")).ok()?;
     let state = stat[stat.rfind(')')? + 1..].trim_start().chars().next()?;
-    let ss = std::fs::read_to_string(format!("/proc/self/task/{tid}/schedstat")).ok()?;
-    let rt = ss.split_whitespace().next()?.parse().ok()?;
-    Some((state, rt))
+    if state != 'S' {
+        return None;
+    }
+    let sc = std::fs::read_to_string(format!("/proc/self/task/{tid}/syscall")).ok()?;
+    let mut it = sc.split_whitespace();
+    if it.next()? != "202" {
+        return None;
+    }
+    let uaddr = usize::from_str_radix(it.next()?.trim_start_matches("0x"), 16).ok()?;
+    if uaddr >= own.0 && uaddr < own.1 {
+        return None;
+    }
+    Some(sc.trim().to_string())
 }
 
 /// How the next action is chosen among the enabled ones when not replaying.
